@@ -84,6 +84,20 @@ theorem C09_group_model_verdict_ok (ls ls' : List Line) (h : StablePerm ls ls') 
     simp [hp, this]
   · simp [hp]
 
+/-- `InspectServerBlocks`: a block with `gzip` always ends up with an `errors` directive (used by
+C20: behind `errors` no handler panic escapes the access log) -/
+theorem gzip_implies_errors (m : TokMap) (h : (tokensOf m "gzip").isSome = true) :
+    (tokensOf (inspect m) "errors").isSome = true := by
+  unfold inspect
+  by_cases he : (tokensOf m "errors").isNone = true
+  · simp only [h, he, Bool.and_self, if_true]
+    rw [tokensOf_append]
+    cases tokensOf m "errors" <;> simp
+  · simp only [h, he, Bool.true_and, if_false]
+    cases ht : tokensOf m "errors" with
+    | none => simp [ht] at he
+    | some _ => simp [ht]
+
 /-- test (non-vacuity): a reordering that moves `rewrite` lines behind `basicauth` and `gzip` in
 front of both is stable; the chain is the same and in list order -/
 example :
